@@ -1,8 +1,8 @@
 import NormModel.Properties.C15
+#print axioms Norm.C15.foldl_selStep_noabort
 #print axioms Norm.C15.selection
+#print axioms Norm.C15.foldl_selStep_abort
+#print axioms Norm.C15.foldl_selStep_missing
 #print axioms Norm.C15.missing_aborts
 #print axioms Norm.C15.default_is_cwd
 #print axioms Norm.C15.other_suffix_rejected
-#print axioms Norm.C15.foldl_selStep_noabort
-#print axioms Norm.C15.foldl_selStep_abort
-#print axioms Norm.C15.foldl_selStep_missing
